@@ -571,6 +571,8 @@ func (x *Exec) scanContractAssigns(c *FuncContract, key string, fn *ssa.Function
 		switch a.Kind {
 		case "all":
 			ws.all = true
+		case "target":
+			ws.all = true
 		case "ghost":
 			ws.ghosts[a.Heap] = true
 		case "heap":
